@@ -15,6 +15,7 @@ OBLIGATIONS = [
     (P + "process_variant_same", "mem_cache<process_settings> has the same lock table"),
     (P + "linearizable", "every schedule of every thread programs: the hook order is a linearization (Spec.LinearizedBy) and the final state equals the sequential run, LRU order included"),
     (P + "history_linearizable", "corollary: the observable history of every run is linearizable (Herlihy-Wing) w.r.t. the sequential cache of C07"),
+    (P + "judge_is_predicate", "the executable judge used on recorded histories = Spec.LinearizedBy"),
     (P + "history_well_formed", "operation ids of a run's history are unique"),
     (P + "fetch_hit_is_latest_store", "a completed fetch that hit returned value/triggers/deadline/generation of one store of that key, not followed in the linearization by any invalidating operation (no torn value, no value of another key)"),
     (P + "no_value_after_trigger_rise", "a hit never returns a value stored (completed) before a rise of one of its triggers began, if that rise completed before the fetch began"),
